@@ -29,7 +29,11 @@ From Oras Require Import Base.Prelude Model.Referrers.
 Definition tid := nat.
 Definition index := list desc.
 
-Inductive result := ROk | RIdxDel | RErr.
+(* RLost: the caller gets a plain error (like RErr) although the index PUT took effect
+   (the response was lost); a ghost distinction - the caller sees RErr *)
+Inductive result := ROk | RIdxDel | RErr | RLost.
+(* what the caller sees: nil, the index-delete error, or a plain error *)
+Definition seen (r : result) : result := match r with RLost => RErr | _ => r end.
 
 Inductive pc :=
 | Idle                                  (* updateReferrersIndex not called (yet) *)
@@ -65,7 +69,9 @@ Inductive event :=
 | EPrepare (t : tid) (fail : bool)
 | ECommit (t : tid)
 | EPut (t : tid) (fail : bool)
+| EPutLost (t : tid)              (* the PUT takes effect, its response is lost (5xx / broken connection) *)
 | EDel (t : tid) (fail : bool)
+| EDelLost (t : tid)              (* the DELETE takes effect, its response is lost *)
 | EComplete (t : tid)
 | EDone (t : tid)
 | EExtDrop.
@@ -189,6 +195,15 @@ Definition step (skipgc : bool) (s : state) (e : event) : option state :=
             Some (set_pc (add_lin (set_reg s (Some new) (new :: store s) j)) t (after_put skipgc old))
       | _ => None
       end
+  | EPutLost t =>
+      (* the registry stores the new index and moves the tag; the client sees an error,
+         update() returns it: the old index is not deleted *)
+      match pcs s t with
+      | NeedPut new old =>
+          let j := match old with Some oi => oi :: junk s | None => junk s end in
+          Some (set_pc (add_lin (set_reg s (Some new) (new :: store s) j)) t (Completing RLost))
+      | _ => None
+      end
   | EDel t fail =>
       (* DELETE the old index by digest (a registry also drops tags pointing at it) *)
       match pcs s t with
@@ -203,6 +218,20 @@ Definition step (skipgc : bool) (s : state) (e : event) : option state :=
                       end in
             let s' := set_reg s r' (filter (fun x => negb (index_eqb x oi)) (store s)) (junk s) in
             Some (set_pc (if ap then s' else add_lin s') t (Completing ROk))
+      | _ => None
+      end
+  | EDelLost t =>
+      (* the registry deletes the old index (and drops tags pointing at it); the client sees an
+         error: after a PUT it is the index-delete error, otherwise (the deletion WAS the
+         update) a plain error although the update took effect *)
+      match pcs s t with
+      | NeedDel oi ap =>
+          let r' := match reg s with
+                    | Some cur => if index_eqb cur oi then None else Some cur
+                    | None => None
+                    end in
+          let s' := set_reg s r' (filter (fun x => negb (index_eqb x oi)) (store s)) (junk s) in
+          Some (if ap then set_pc s' t (Completing RIdxDel) else set_pc (add_lin s') t (Completing RLost))
       | _ => None
       end
   | EComplete t =>
@@ -236,6 +265,25 @@ Definition step (skipgc : bool) (s : state) (e : event) : option state :=
                      (reg s) (store s) (arg s) (lin s) (junk s) (applied s))
       | _, _ => None
       end
+  end.
+
+(* ---------- Pool.Get / release as a reference count ----------
+   What [step] does to the [pool] field at EGet / EDone, as functions of their own: Get
+   creates the entry (a fresh, zero Merge) iff there is none; the release function of the
+   last holder removes it.  [pool_trace] replays a sequence of Get (true) / release (false)
+   in lock order and says for every Get whether a fresh Merge was created (P lines). *)
+Definition pool_get (p : option nat) : option nat * bool :=
+  match p with None => (Some 1%nat, true) | Some rc => (Some (S rc), false) end.
+Definition pool_put (p : option nat) : option nat :=
+  match p with
+  | Some rc => if Nat.leb (rc - 1) 0 then None else Some (rc - 1)%nat
+  | None => None
+  end.
+Fixpoint pool_trace (p : option nat) (ops : list bool) : list bool :=
+  match ops with
+  | [] => []
+  | true :: r => let (p', fr) := pool_get p in fr :: pool_trace p' r
+  | false :: r => pool_trace (pool_put p) r
   end.
 
 Fixpoint run (skipgc : bool) (s : state) (tr : list event) : option state :=
@@ -314,7 +362,9 @@ Definition seq_op (st : option index * list N) (c : change) : option index * lis
    flag = failed).  The lock regions in between are inserted where the code performs
    them; [obs] logs the batch handed to update and the body of every PUT. *)
 Inductive vis := VG (t : tid) | VP (t : tid) (f : bool) | VU (t : tid) (f : bool) | VD (t : tid) (f : bool)
-             | VX.   (* the tag was dropped by another tag's deletion of a shared index *)
+             | VX    (* the tag was dropped by another tag's deletion of a shared index *)
+             | VL (t : tid)    (* PUT answered with an error although it took effect *)
+             | VK (t : tid).   (* DELETE of the old index answered with an error although it took effect *)
 Inductive obs := OBatch (main : tid) (ms : list tid) | OPut (main : tid) (new : index).
 
 (* complete / release for callers 0..n-1 (ascending), one pass *)
@@ -364,7 +414,11 @@ Definition vis_step (sg : bool) (changes : list change) (acc : state * list obs)
     | VU t f =>
         let log1 := match pcs s t with NeedPut nw _ => log ++ [OPut t nw] | _ => log end in
         match step sg s (EPut t f) with Some s1 => Some (s1, log1) | None => None end
+    | VL t =>
+        let log1 := match pcs s t with NeedPut nw _ => log ++ [OPut t nw] | _ => log end in
+        match step sg s (EPutLost t) with Some s1 => Some (s1, log1) | None => None end
     | VD t f => match step sg s (EDel t f) with Some s1 => Some (s1, log) | None => None end
+    | VK t => match step sg s (EDelLost t) with Some s1 => Some (s1, log) | None => None end
     | VX => match step sg s EExtDrop with Some s1 => Some (s1, log) | None => None end
     end in
   match r with
